@@ -76,7 +76,10 @@ impl Pred {
         self.milli = ts;
         if change {
             self.round = 0;
-            self.eff = ts; // approximation (drift correction ignored)
+            let close = dur >= 1000
+                && self.target >= 1000
+                && 1_000_000_000_000_000_000i128 * (dur as i128 - self.target as i128) < 100_000_000_000_000_001i128 * self.target as i128;
+            self.eff = if close { self.eff.saturating_add_unsigned(self.target) } else { ts };
         } else {
             self.round = r;
         }
@@ -86,7 +89,11 @@ impl Pred {
 fn ts_choice(rng: &mut Rng, p: &Pred) -> i64 {
     let cur = p.milli;
     let add = |d: i64| cur.saturating_add(d);
-    match rng.below(24) {
+    let mut c = rng.below(24);
+    if (16..=19).contains(&c) && !rng.chance(1, 3) {
+        c = 23; // absolute / extreme values less often: they mostly end the useful part of a case
+    }
+    match c {
         0 | 1 => cur,
         2 | 3 => add(1),
         4 => add(rng.range(2, 998)),
@@ -145,7 +152,7 @@ fn write_next(rng: &mut Rng, p: &mut Pred, out: &mut dyn Write) {
         }
         _ => (1, vec![]), // valid right after an epoch change the predictor missed
     };
-    let leader: u8 = match rng.below(12) {
+    let leader: u8 = match rng.below(36) {
         0 => p.k,
         1 => 255,
         2 => rng.below(256) as u8,
